@@ -212,7 +212,7 @@ pub fn sub() -> Box<dyn SubCheck> {
     PropSub {
         name: "bytes",
         strategy,
-        cases: |t| t.pick(150_000, 6_000_000),
+        cases: |t| t.pick(150_000, 3_000_000),
         run,
         floors: &[("all-err", 0.2), ("some-ok", 0.1), ("ok-after-mutation", 0.012), ("ok-notification", 0.02), ("ok-snapshot", 0.02), ("ok-delta", 0.02)],
     }
